@@ -68,6 +68,8 @@ impl ConnectionRunner {
     ) {
         let clean_up_data = ConnectionCleanupData {
             announced_info_hashes: Default::default(),
+            out_message_consumer_id: self.out_message_consumer_id,
+            connection_id: self.connection_id,
             ip_version: self.ip_version,
             #[cfg(feature = "metrics")]
             opt_peer_client: Default::default(),
@@ -600,6 +602,8 @@ impl<S: futures::AsyncRead + futures::AsyncWrite + Unpin> ConnectionWriter<S> {
 #[derive(Clone)]
 struct ConnectionCleanupData {
     announced_info_hashes: Rc<RefCell<HashMap<InfoHash, PeerId>>>,
+    out_message_consumer_id: ConsumerId,
+    connection_id: ConnectionId,
     ip_version: IpVersion,
     #[cfg(feature = "metrics")]
     opt_peer_client: Rc<RefCell<Option<PeerClientGauge>>>,
@@ -630,6 +634,8 @@ impl ConnectionCleanupData {
 
         for (consumer_index, announced_info_hashes) in announced_info_hashes.into_iter() {
             let message = SwarmControlMessage::ConnectionClosed {
+                out_message_consumer_id: self.out_message_consumer_id,
+                connection_id: self.connection_id,
                 ip_version: self.ip_version,
                 announced_info_hashes,
             };
